@@ -267,6 +267,16 @@ def one_case(ctx, rng, wd, which, inclusive=False, force_N=None):
                 cutm = np.full((Kr, Kr), rc) * rng.choice([1.0, 0.5], size=(Kr, Kr))
             if np.isfinite(ragree):
                 cutm = np.minimum(cutm, 0.95 * ragree)
+            # the same table in another representation (R7): Fortran order, read-only, or -- integer-valued cut-offs -- an integer array
+            crep = ["c", "fortran", "readonly", "int", "c"][(n + Kr + frames) % 5]
+            if crep == "int" and not inclusive and (not np.isfinite(ragree) or ragree > 2.2) and base > 0.8:
+                cutm = rng.integers(1, 3, size=(Kr, Kr)).astype(np.int64)
+            elif crep == "fortran":
+                cutm = np.asfortranarray(cutm)
+            elif crep == "readonly":
+                cutm = cutm.copy()
+                cutm.setflags(write=False)
+            ctx.count("cutoff_table_rep_" + crep)
             info = lambda: {**info0, "r_cut_matrix": cutm}  # noqa: E731
             key = "cutoffneighbors_particletype" + ("/inclusive" if inclusive else "")
             if rng.random() < 0.3 and not force_N:
